@@ -44,6 +44,62 @@ def validate_one(ctx, k, rec):
     return dict(line=hi, event=lines[hi - 1], before=lines[max(1, hi - 4):hi - 1])
 
 
+REFMODE_CONFIG = ("features:\n  versions: [HTTP_VERSION_1, HTTP_VERSION_2]\n  protocols: [PROTOCOL_CONNECT, PROTOCOL_GRPC, PROTOCOL_GRPC_WEB]\n"
+                  "  codecs: [CODEC_PROTO]\n  compressions: [COMPRESSION_IDENTITY]\n  supportsTls: false\n  supportsH2c: true\n")
+REFMODE = [
+    (["Basic/**"], ["**/(grpc server impl)/**"]),
+    (["**/(grpc client impl)/**"], ["**/server-stream/**"]),
+    (["Basic/**/unary/**", "Errors/**"], ["**/(grpc impls)/**", "**/HTTPVersion:1/**"]),
+    (["@unmarked"], []),
+    (["@marked:(grpc server impl)"], []),
+    (["Basic/**"], ["@marked:(grpc client impl)", "@unmarked"]),
+]
+
+
+def reference_mode(ctx):
+    """run() with the reference peers in process (the grpc-go peers add permutations under marked names): the outcomes
+    must be exactly the permutations that the declarative selection (GlobDecl.Selected) picks among all names."""
+    rnd = random.Random(ctx.seed)
+    scns = [dict(config=REFMODE_CONFIG, run=r, skip=s) for r, s in (REFMODE if not ctx.quick else REFMODE[3:] + rnd.sample(REFMODE[:3], 2))]
+    scnp, outp = os.path.join(ctx.build, "c05ref.scn"), os.path.join(ctx.build, "c05ref.out")
+    vf.write_ndjson(scnp, scns)
+    binp = ctx.go_test_bin("internal/app/connectconformance", ["c05", "peers"], race=True)
+    p = ctx.run_harness(binp, "TestVerifC05RefMode", env=dict(VERIF_SCN=scnp, VERIF_OUT=outp), timeout=3000, check=False)
+    if "WARNING: DATA RACE" in p.stdout:
+        j = p.stdout.index("WARNING: DATA RACE")
+        ctx.candidate(dict(kind="race", leg="refmode"), "data race reported by the Go race detector:\n" + p.stdout[j:j + 3000], dict(kind="race", report=p.stdout[j:j + 3000]))
+        return
+    if p.returncode != 0:
+        raise vf.Machinery("refmode harness failed rc=%d\n%s" % (p.returncode, p.stdout[-3000:]))
+    recs = vf.read_ndjson(outp)
+    split = lambda names: [n.split("/") for n in names]
+    lines = []
+    for r in recs:
+        if r.get("err", "").startswith("harness"):
+            raise vf.Machinery(r["err"])
+        if r.get("hang"):
+            ctx.candidate(dict(kind="hang", leg="refmode"), "reference-mode run did not end within 4 minutes: run=%s skip=%s" % (r["run"], r["skip"]), r)
+            continue
+        if r.get("err"):
+            # patterns are chosen so that each matches something; an error here is itself a wrong selection
+            ctx.candidate(dict(kind="refmode-error", run=r["scn"]["run"], skip=r["scn"]["skip"]), "reference-mode run failed: %s (run=%s skip=%s)" % (r["err"], r["run"], r["skip"]), r)
+            continue
+        lines.append((r, dict(names=split(r["names"]), run=split(r["run"]), skip=split(r["skip"]), outcomes=split(r["outcomes"]))))
+    trp = os.path.join(ctx.build, "c05ref.trace")
+    vf.write_ndjson(trp, [x[1] for x in lines])
+    tr = ctx.tlc("Trace_Select", "Trace_Select.cfg", workers=1, env=dict(VERIF_TRACE=trp), timeout=1800, heap="4g")
+    if lines and not tr.lines("CONSUMED "):
+        raise vf.Machinery("Trace_Select did not consume the trace")
+    for ln in tr.lines("REJECT "):
+        r = lines[int(ln) - 1][0]
+        ctx.candidate(dict(kind="selection", run=r["scn"]["run"], skip=r["scn"]["skip"]),
+                      "reference mode: the permutations that got an outcome are not the selected ones: run=%s skip=%s, %d names, %d outcomes, e.g. %s" % (
+                          r["run"], r["skip"], len(r["names"]), len(r["outcomes"]), r["outcomes"][:2]), r)
+    ctx.cov["traces_validated_against_impl"] += len(lines)
+    ctx.cov["evaluations"] += sum(len(x[0]["outcomes"]) for x in lines)
+    ctx.notes["reference_mode_leg"] = dict(runs=len(lines), names=len(lines[0][0]["names"]) if lines else 0)
+
+
 def client_answers(ctx):
     """Runner.tla takes the client side as an assumption (ClientAnswers: every request handed to the client gets
     its callback, exactly once, whatever the client does - otherwise a batch never returns, its slot is never
@@ -133,6 +189,7 @@ def run(ctx):
         ctx.sample(dict(scenario=pick[k], plan=[(b["inst"], len(b["cases"])) for b in rec["plan"]], first_events=rec["events"][:4]))
     if not ctx.replay:
         client_answers(ctx)
+        reference_mode(ctx)
     ctx.cov["rule"] = ("real run() in both-commands mode with the reference client and server wrapped as OS processes; scenario = config "
                        "(instance mix incl. TLS / client certs) x corpus slice (--run/--skip) x MaxServers 1..4 x client parallelism x "
                        "server-fails-to-start; every Up/Send/Stop event (synchronously sequenced, address probed by TCP connect) and the "
